@@ -49,7 +49,13 @@ func goRefRun(src string) (out string, panicked bool, err error) {
 var intWord = regexp.MustCompile(`\bint\b`)
 
 // asInt32 gives the reference program goatlang's meaning of int (int32).
-func asInt32(src string) string { return intWord.ReplaceAllString(src, "int32") }
+func asInt32(src string) string {
+	src = intLitDecl.ReplaceAllString(src, "$1 := int32($2)$3")
+	return intWord.ReplaceAllString(src, "int32")
+}
+
+// x := 5  declares an int in Go; goatlang's int is int32
+var intLitDecl = regexp.MustCompile(`(\b\w+) := (-?\d+)([;\n ])`)
 
 // goatRun loads src as package main into a fresh VM and calls main.main.
 func goatRun(src string) (out string, err error) {
